@@ -17,14 +17,14 @@ def cubes_kernel(tier):
 def stack_cubes(prop):
     def cubes(tier):
         if tier == "quick":
-            out = [dict(nfiles=2, listing=l, dst=d, prop=prop) for l in STACK_LISTINGS_Q[:3] + STACK_LISTINGS_Q[3:4] for d in DSTS
-                   if not (l == STACK_LISTINGS_Q[1] and d != "local")]
+            out = [dict(nfiles=2, listing=l, dst=d, prop=prop, ekind=(prop == "C04" and l == STACK_LISTINGS_Q[0])) for l in STACK_LISTINGS_Q[:3] + STACK_LISTINGS_Q[3:4]
+                   for d in DSTS if not (l == STACK_LISTINGS_Q[1] and d != "local")]
             out += [dict(nfiles=2, listing=[[0, 1], [0]], dst="remote", prop=prop, index=True, _w=2),
                     dict(nfiles=2, listing=[[0, 1], [0]], dst="local", prop=prop, mode="expand", _w=2)]
             if prop == "C04":
                 out += [dict(nfiles=2, listing=[[0, 1], [0]], dst="local", prop=prop, abort=k) for k in (1, 2)]
             return out
-        out = [dict(nfiles=2, listing=l, dst=d, prop=prop) for l in STACK_LISTINGS_Q for d in DSTS]
+        out = [dict(nfiles=2, listing=l, dst=d, prop=prop, ekind=True) for l in STACK_LISTINGS_Q for d in DSTS]
         out += [dict(nfiles=2, listing=l, dst=d, prop=prop, mode="expand") for l in STACK_LISTINGS_Q for d in DSTS]
         out += [dict(nfiles=2, listing=l, dst=d, prop=prop, index=True) for l in STACK_LISTINGS_Q for d in DSTS]
         out += [dict(nfiles=2, listing=l, dst="local", src="local", prop=prop) for l in STACK_LISTINGS_Q]
